@@ -90,6 +90,52 @@ type out struct {
 	lockOps   map[string][]string
 	lockPaths map[string][][]string
 	initFuncs map[string][]string // package -> init skeleton tokens (flattened)
+	handlerMem [][2]string        // upgrade package, method call inside its handler closure that takes no block context
+}
+
+// collectHandlerMemoryCalls lists, for an upgrade package, every method call inside a function literal of the shape of
+// an upgrade handler (first parameter sdk.Context) whose receiver lives in a keeper, params or module-manager package
+// and which is given no sdk.Context: such a call can only read or change what the process holds in memory, and memory
+// does not survive a restart (F24).
+func collectHandlerMemoryCalls(p *packages.Package, r string, o *out) {
+	isCtx := func(t types.Type) bool { return t != nil && t.String() == "github.com/cosmos/cosmos-sdk/types.Context" }
+	for _, f := range p.Syntax {
+		if generated(p.Fset, f) {
+			continue
+		}
+		ast.Inspect(f, func(n ast.Node) bool {
+			fl, ok := n.(*ast.FuncLit)
+			if !ok || fl.Type.Params == nil || len(fl.Type.Params.List) == 0 || !isCtx(p.TypesInfo.TypeOf(fl.Type.Params.List[0].Type)) {
+				return true
+			}
+			ast.Inspect(fl.Body, func(m ast.Node) bool {
+				call, ok := m.(*ast.CallExpr)
+				if !ok {
+					return true
+				}
+				sel, ok := call.Fun.(*ast.SelectorExpr)
+				if !ok {
+					return true
+				}
+				fn, ok := p.TypesInfo.ObjectOf(sel.Sel).(*types.Func)
+				if !ok || fn.Type().(*types.Signature).Recv() == nil || fn.Pkg() == nil {
+					return true
+				}
+				pp := fn.Pkg().Path()
+				if !(strings.HasSuffix(pp, "/keeper") || strings.Contains(pp, "x/params/types") || strings.HasSuffix(pp, "types/module") || strings.Contains(pp, "/app/keepers")) {
+					return true
+				}
+				for _, a := range call.Args {
+					if isCtx(p.TypesInfo.TypeOf(a)) {
+						return true
+					}
+				}
+				o.handlerMem = append(o.handlerMem, [2]string{r, exprStr(p.Fset, call)})
+				return true
+			})
+			return false
+		})
+	}
 }
 
 func skip(p *packages.Package) bool {
@@ -627,6 +673,9 @@ func main() {
 			}
 		}
 		methodsOfKS := map[string]*ast.FuncDecl{}
+		if strings.HasPrefix(r, "app/upgrades/") {
+			collectHandlerMemoryCalls(p, r, o)
+		}
 		// message structs live in generated *.pb.go files: field, Go type, json tag (field order = proto order)
 		for _, f := range p.Syntax {
 			if !strings.HasSuffix(p.Fset.Position(f.Pos()).Filename, ".pb.go") || isApp {
@@ -934,6 +983,14 @@ func main() {
 			n = u[0][0]
 		}
 		fmt.Fprintf(&b, "  (%s, %s, %s)%s\n", leanStr(n), leanList(u[1]), leanList(u[2]), sep)
+	}
+	b.WriteString("]\n\n")
+	b.WriteString("/-- method calls on keepers, params subspaces or the module manager inside an upgrade handler's closure that are given no block context (upgrade package, call): in-memory effects of running the handler -/\ndef handlerMemoryCalls : List (String × String) := [")
+	for i, c := range o.handlerMem {
+		if i > 0 {
+			b.WriteString(", ")
+		}
+		fmt.Fprintf(&b, "(%s, %s)", leanStr(c[0]), leanStr(c[1]))
 	}
 	b.WriteString("]\n\n")
 	fmt.Fprintf(&b, "/-- arguments of sdk.NewKVStoreKeys in app/keepers/keys.go -/\ndef mountedStores : List String := %s\n\n", leanList(mounted))
